@@ -287,3 +287,179 @@ def probes_c06(tr, sc):
             ends.setdefault(fbits(a['t'] + a['dt']), set()).add(fbits(a['t']))
     if any(len(v) > 1 for v in ends.values()):
         res.probe('two_steps_same_end_time')
+
+
+# =========================================================================================================== C14
+START_KEYED = ('niter', 'residual_post_step', 'restart', 'dt')
+END_KEYED = ('u', 'k', 'error_embedded_estimate', 'e_global_post_step', 'e_local_post_step')
+
+
+def _valeq(a, b):
+    try:
+        if isinstance(a, np.ndarray) or isinstance(b, np.ndarray):
+            return same_bytes(a, b)
+        if isinstance(a, float) and isinstance(b, float):
+            return fbits(a) == fbits(b)
+        return a == b
+    except Exception:  # noqa: BLE001
+        return False
+
+
+def oracle_c14(tr, sc, rng):
+    from pySDC.helpers.stats_helper import filter_stats, sort_stats, get_sorted
+
+    ctx, res = tr.ctx, tr.res
+    stats = tr.stats
+    V = lambda clause, site, detail, **ident: res.violate('C14', clause, site, detail, ident=ident)  # noqa: E731
+    if tr.exc is not None and tr.exc[0] not in ('ConvergenceError',):
+        if tr.exc[0] == 'StepCapExceeded':
+            res.probe('skipped_step_cap')
+            return
+        V('unexpected_exception', tr.exc[0], tr.exc[1])
+        return
+    if stats is None:
+        return
+    if tr.exc is not None:
+        # run() raised ConvergenceError: it returned no statistics; the attempts of the last block were never superseded
+        res.probe('run_aborted_not_judged')
+        return
+    acc = [a for a in ctx.attempts if a.get('post') and a.get('accepted')]
+    types = {k.type for k in stats}
+    nlev = len(cfg_levels(sc))
+    # -- 2. collisions: a record written for an accepted step is later overwritten with a different value under the same
+    #       full key (markers and timings aside).  Collisions among superseded records only are not the property's business.
+    def owner_accepted(proc, seq):
+        for a in acc:
+            if a['slot'] == proc and a['seq_pre'] <= seq <= a['seq_post']:
+                return True
+        return False
+
+    seen = {}
+    for kind, key, value, hook, seq in getattr(ctx, 'stat_writes', []):
+        if key.type.startswith('timing') or key.type == '_recomputed' or kind == 'inc':
+            continue
+        if key in seen and not _valeq(seen[key][0], value) and seen[key][2]:
+            cause = 'middle_level_swept_twice_per_iteration' if (key.type == 'residual_post_sweep' and key.level not in (0, nlev - 1, None)) else 'other'
+            V('key_collision', seen[key][1], f'the record of an accepted step with key {tuple(key)} is overwritten with a different value (hooks {seen[key][1]}, {hook})', type=key.type, cause=cause)
+        seen[key] = (value, hook, owner_accepted(key.process, seq))
+    # -- diagnosis of one known root cause: filter_stats(recomputed=False) assumes that, at one time key, a higher restart
+    #    count means a newer record.  A superseded attempt that starts or ends at the very same time as an accepted step
+    #    and carries a restart count >= that of the accepted step defeats it (records and _recomputed markers alike).
+    sup = [b for b in ctx.attempts if b.get('post') and not b.get('accepted')]
+    sup_times = {}
+    for b in sup:
+        for tt in (fbits(b['t']), fbits(b['t'] + b['dt'])):
+            sup_times[tt] = max(sup_times.get(tt, -1), b['restarts_in_a_row'] or 0)
+
+    def nonmonotone(a):
+        for tt in (fbits(a['t']), fbits(a['t'] + a['dt'])):
+            if sup_times.get(tt, -1) >= (a['restarts_in_a_row'] or 0):
+                return True
+        return False
+
+    tainted_times = set()
+    for a in acc:
+        if nonmonotone(a):
+            tainted_times.add(fbits(a['t']))
+            tainted_times.add(fbits(a['t'] + a['dt']))
+    if tainted_times:
+        res.probe('superseded_attempt_with_geq_restart_count_at_same_time')
+
+    def VF(t, clause, site, detail, **ident):
+        """Violation at time key t: attributed to the known root cause if t is tainted by it."""
+        if t in tainted_times:
+            V('recomputed_filter_nonmonotone_restart_count', 'filter_stats', detail, root='restart_count_not_monotone_per_time')
+        else:
+            V(clause, site, detail, **ident)
+
+    # -- 1./5. per accepted step exactly one record per quantity after filtering out recomputed values
+    for q in sorted(types):
+        if q.startswith('timing') or q.startswith('_'):
+            continue
+        if q in START_KEYED:
+            want = {fbits(a['t']): a for a in acc}
+        elif q in END_KEYED or q.startswith('work_'):
+            want = {fbits(a['t'] + a['dt']): a for a in acc}
+        else:
+            continue
+        got = filter_stats(stats, type=q, recomputed=False)
+        lvl0 = {}
+        for k, v in got.items():
+            if q.startswith('work_') and k.level != 0:
+                continue
+            lvl0.setdefault(fbits(k.time), []).append((k, v))
+        extra = [t for t in lvl0 if t not in want]
+        missing = [t for t in want if t not in lvl0]
+        dup = [t for t, l in lvl0.items() if len(l) > 1]
+        if extra:
+            t = struct.unpack('<d', extra[0])[0]
+            sup = any(fbits(a['t']) == extra[0] or fbits(a['t'] + a['dt']) == extra[0] for a in ctx.attempts if not a.get('accepted'))
+            VF(extra[0], 'recomputed_filter_keeps_superseded', 'filter_stats', f"type {q!r}: record at time {t!r} survives recomputed=False but belongs to no accepted step ({len(extra)} such)", type=q, hook=_hook_of(q), superseded=sup)
+        if missing:
+            t = struct.unpack('<d', missing[0])[0]
+            VF(missing[0], 'recomputed_filter_drops_accepted', 'filter_stats', f"type {q!r}: accepted step keyed {t!r} has no record after recomputed=False ({len(missing)} such)", type=q, hook=_hook_of(q))
+        if dup:
+            t = struct.unpack('<d', dup[0])[0]
+            VF(dup[0], 'duplicate_record', 'filter_stats', f"type {q!r}: {len(lvl0[dup[0]])} records for the accepted step keyed {t!r}", type=q, hook=_hook_of(q))
+        # values and key fields
+        for t, lst in lvl0.items():
+            if t not in want or len(lst) != 1:
+                continue
+            a, (k, v) = want[t], lst[0]
+            if k.process != a['slot']:
+                VF(t, 'wrong_key_field', _hook_of(q), f"type {q!r}: process {k.process} != slot {a['slot']}", type=q, field='process')
+            if q == 'niter' and not (v == a['iter'] == a['niter_cb']):
+                VF(t, 'niter_mismatch', 'DefaultHooks.post_step', f"niter record {v} vs status.iter {a['iter']} vs {a['niter_cb']} pre_iteration callbacks (t={a['t']!r})")
+            if q == 'dt' and fbits(v) != fbits(a['dt']):
+                VF(t, 'wrong_value', 'LogStepSize', f"dt record {v!r} != {a['dt']!r}", type=q)
+            if q == 'u' and not same_bytes(v, a['uend']):
+                VF(t, 'wrong_value', 'LogSolution', f"logged u for the step ending at {a['t'] + a['dt']!r} differs from the step's end value", type=q)
+            if q == 'restart' and v != 0:
+                VF(t, 'wrong_value', 'LogRestarts', f"accepted step at {a['t']!r} recorded restart={v}", type=q)
+            if q == 'residual_post_step' and not _valeq(float(v), float(a['residual'])):
+                VF(t, 'wrong_value', 'DefaultHooks.post_step', 'residual_post_step differs from the level residual at post_step', type=q)
+            if q in ('niter', 'restart', 'dt', 'u', 'k') and k.iter != a['iter']:
+                VF(t, 'wrong_key_field', _hook_of(q), f"type {q!r}: iter field {k.iter} != {a['iter']}", type=q, field='iter')
+            if k.num_restarts != (a['restarts_in_a_row'] or 0):
+                VF(t, 'wrong_key_field', _hook_of(q), f"type {q!r} at {struct.unpack('<d', t)[0]!r}: num_restarts field {k.num_restarts} != restarts in a row {a['restarts_in_a_row']} of that step", type=q, field='num_restarts')
+            if q == 'work_rhs' and a.get('work_post'):
+                mine = a['work_post'][0].get('eval_f', 0) - a['work_pre'][0].get('eval_f', 0)
+                if v != mine:
+                    VF(t, 'work_mismatch', 'LogWork', f"work_rhs record {v} != {mine} right-hand-side evaluations counted independently (t={a['t']!r})")
+    # -- 4. filter / sort helpers on the recorded dictionary
+    keys = list(stats)
+    if keys:
+        for _ in range(4):
+            k0 = keys[rng.randrange(len(keys))]
+            fields = rng.sample(['process', 'time', 'level', 'iter', 'sweep', 'type', 'num_restarts'], rng.randint(1, 3))
+            kw = {f: getattr(k0, f) for f in fields if getattr(k0, f) is not None}
+            got = filter_stats(stats, **kw)
+            ref = {k: v for k, v in stats.items() if all(getattr(k, f) == val for f, val in kw.items())}
+            if list(got.keys()) != list(ref.keys()):
+                V('filter_wrong', 'filter_stats', f'filter_stats(**{kw}) returns {len(got)} entries, reference {len(ref)}')
+            sb = rng.choice(['time', 'iter', 'process'])
+            sub = {k: v for k, v in got.items() if getattr(k, sb) is not None}
+            srt = sort_stats(sub, sortby=sb)
+            ks = [x[0] for x in srt]
+            if ks != sorted(ks) or len(srt) != len(sub):
+                V('sort_wrong', 'sort_stats', f'sort_stats by {sb} not ascending or not a permutation')
+            gs = get_sorted(stats, sortby=sb, **{k: v for k, v in kw.items()}) if all(getattr(k, sb) is not None for k in got) else None
+            if gs is not None and [x[0] for x in gs] != [x[0] for x in sort_stats(got, sortby=sb)]:
+                V('sort_wrong', 'get_sorted', 'get_sorted is not sort_stats(filter_stats(...))')
+
+
+def cfg_levels(sc):
+    nn = sc['config']['sweeper']['params']['num_nodes']
+    return nn if isinstance(nn, list) else [nn]
+
+
+def _hook_of(q):
+    return {
+        'niter': 'DefaultHooks',
+        'residual_post_step': 'DefaultHooks',
+        'restart': 'LogRestarts',
+        'dt': 'LogStepSize',
+        'u': 'LogSolution',
+        'k': 'LogSDCIterations',
+        'error_embedded_estimate': 'LogEmbeddedErrorEstimate',
+    }.get(q, 'LogWork' if q.startswith('work_') else ('LogErrors' if q.startswith('e_') else q))
